@@ -104,6 +104,28 @@ ReductionLaw ==
   /\ (~Cplx => /\ TreeRed(MaxS, LAMBDA a, b : IF a > b THEN a ELSE b, T1) = MaxS(Flat(T1))
                /\ TreeRed(MinS, LAMBDA a, b : IF a < b THEN a ELSE b, T1) = MinS(Flat(T1))
                /\ TreeRed(LAMBDA v : ISum(FMap1(AbsI, v), 1), LAMBDA a, b : a + b, T1) = ISum(FMap1(AbsI, Flat(T1)), 1))
+\* ---- forests: tuples of trees of one structure (samples) -------------------------------------------------------------------
+\* T3: a third tree of the same structure; the forest (T1, T2, T3).  mean / mean_and_std / stack / unstack / map_forest work leaf-wise over
+\* the forest; on the flat arrays: entry-wise sums over the members (the mean is that sum / 3; the unbiased variance
+\* (3 * sum of squares - square of the sum) / (3 * 2))
+T3 == Shape(inst.name, (inst.s1 + 2 * inst.s2 + 1) % 5)
+Forest == <<T1, T2, T3>>
+RECURSIVE Map3T(_, _, _, _)
+Map3T(f(_, _, _), t, u, w) == IF t.k = "leaf" THEN Leaf([i \in 1..Len(t.v) |-> f(t.v[i], u.v[i], w.v[i])])
+                              ELSE [t EXCEPT !.kids = [i \in 1..Len(t.kids) |-> Map3T(f, t.kids[i], u.kids[i], w.kids[i])]]
+Sum3(a, b, c) == Add(Add(a, b), c)
+SqSum3(a, b, c) == Add(Add(Mul(a, a), Mul(b, b)), Mul(c, c))
+VarNum(a, b, c) == 3 * (a * a + b * b + c * c) - (a + b + c) * (a + b + c)              \* integers only
+F3 == Flat(T3)
+ForestLaw ==
+  /\ Flat(Map3T(Sum3, T1, T2, T3)) = [i \in 1..Len(Flat(T1)) |-> Sum3(Flat(T1)[i], Flat(T2)[i], F3[i])]
+  /\ Flat(Map3T(SqSum3, T1, T2, T3)) = [i \in 1..Len(Flat(T1)) |-> SqSum3(Flat(T1)[i], Flat(T2)[i], F3[i])]
+  /\ (~Cplx => \A i \in 1..Len(Flat(T1)) : VarNum(Flat(T1)[i], Flat(T2)[i], F3[i]) >= 0)
+\* unite: dictionaries with the keys {b, a} and {a, c}: entries under a common key are combined, the others taken over
+U1 == Dict(<<"b", "a">>, <<Leaf(Arr(inst.s1, 1, 2)), Leaf(Arr(inst.s1, 2, 1))>>)
+U2 == Dict(<<"a", "c">>, <<Leaf(Arr(inst.s2, 2, 1)), Leaf(Arr(inst.s2, 3, 2))>>)
+United == Dict(<<"a", "b", "c">>, <<Leaf(FMap2(Add, U1.kids[2].v, U2.kids[1].v)), U1.kids[1], U2.kids[2]>>)
+UniteLaw == Len(Flat(United)) = Len(Flat(U1)) + Len(Flat(U2)) - 1
 \* the flattening order is the sorted key order, whatever the insertion order (vacuity: some instance has unsorted keys)
 OrderMatters == inst.name \in {"S2", "S3", "S5"} => Flat(T1) # (LET t == T1 IN IF t.k = "dict" THEN Flat(t.kids[1]) \o Flat(t.kids[2]) ELSE Flat(T1)) \/ inst.name # "S2" \/ Flat(T1.kids[1]) = Flat(T1.kids[2])
 \* ---- emission -------------------------------------------------------------------------------------------------------
@@ -126,5 +148,8 @@ Emit == PrintT(ToJson([mode |-> Mode, name |-> inst.name, c |-> inst.c, t1 |-> T
     norm2sq |-> ISum(FMap1(Abs2, F1), 1), norm1 |-> IF Cplx THEN 0 ELSE ISum(FMap1(AbsI, F1), 1),
     max |-> IF Cplx THEN 0 ELSE MaxS(F1), min |-> IF Cplx THEN 0 ELSE MinS(F1),
     where |-> [i \in 1..Len(F1) |-> IF Eq(F1[i], F2[i]) = 1 THEN F1[i] ELSE Neg(F2[i])],
+    t3 |-> TJ(T3), fsum |-> [i \in 1..Len(F1) |-> Sum3(F1[i], F2[i], F3[i])],
+    fvarnum |-> IF Cplx THEN <<>> ELSE [i \in 1..Len(F1) |-> VarNum(F1[i], F2[i], F3[i])],
+    u1 |-> TJ(U1), u2 |-> TJ(U2), united |-> Flat(United),
     any |-> Bool(\E i \in 1..Len(F1) : F1[i] = F2[i]), all |-> Bool(\A i \in 1..Len(F1) : F1[i] = F2[i])]))
 =============================================================================
